@@ -74,14 +74,18 @@ def doAlloc (d : DSt) (bytes align : Nat) (z : Bool) : DSt × String :=
       ({ d with st := st2, infos := d.infos.push { created := true, beg := b.beg, len := b.len, seed := id } },
        s!"ok beg={b.beg} len={b.len} mod={(st1.a.base + b.beg) % align} {oc st1.a} sum={sum}")
 
-def doGrow (d : DSt) (blk new : Nat) : DSt × String :=
+/-- `grow` / `grow_zeroed`.  `grow_zeroed` is `grow` followed by the zero fill of the new tail THROUGH THE
+RETURNED POINTER: in the model that is the owner storing `old contents ++ zeroes` into its own (grown)
+block, i.e. the op sequence `.grow`, `.store` — every theorem about histories applies as it stands. -/
+def doGrow (d : DSt) (blk new : Nat) (z : Bool := false) : DSt × String :=
   match d.infos[blk]?, findBlk d.st.live blk with
   | some info, some b =>
       if new < b.len || new > maxBytes then bad d else
       match d.st.a.grow b.beg b.len new b.align with
       | none => (d, s!"err {oc d.st.a}")
       | some (nb, _) =>
-          let st1 := step d.st (.grow blk new)
+          let st0 := step d.st (.grow blk new)
+          let st1 := if z then step st0 (.store blk (fun k => if k < b.len then b.data k else 0)) else st0
           let sum := digest st1.a.mem nb new
           let st2 := step st1 (.store blk (pat info.seed))
           (setInfo { d with st := st2 } blk (fun i => { i with beg := nb, len := new }),
@@ -163,6 +167,10 @@ def stepLine (d : DSt) (line : String) : DSt × String :=
   | ["grow", b, n] =>
       match b.toNat?, n.toNat? with
       | some blk, some new => doGrow d blk new
+      | _, _ => bad d
+  | ["zgrow", b, n] =>
+      match b.toNat?, n.toNat? with
+      | some blk, some new => doGrow d blk new true
       | _, _ => bad d
   | ["shrink", b, n] =>
       match b.toNat?, n.toNat? with
